@@ -12,16 +12,18 @@ reach, inv = PI.inventory(P, roots)
 path = os.path.join(core.VERIF, "tables", "residue.json")
 doc = json.load(open(path)); rows = doc["rows"]
 fps = {}
+cens = {}
 for f, s in inv:
     if s.discharged: continue
     k = PI.site_key(P, f, s)
     if k in rows:
         fps.setdefault(k, []).append(PI.guard_fingerprint(f, s.bb))
+        cens[k] = PI.guard_census(f)
 n = 0
 for k, gs in fps.items():
     uniq = []
     for g in gs:
         if g not in uniq: uniq.append(g)
-    rows[k]["guards"] = uniq; n += 1
+    rows[k]["guards"] = uniq; rows[k]["census"] = cens[k]; n += 1
 json.dump(doc, open(path, "w"), indent=1, sort_keys=True)
 print("recorded guard fingerprints for", n, "rows")
